@@ -4,7 +4,6 @@
 package crdtx
 
 import (
-	cidlink "github.com/ipld/go-ipld-prime/linking/cid"
 	"context"
 	"crypto/sha256"
 	"encoding/hex"
@@ -760,10 +759,5 @@ func Exchange(sn vkv.Snap) SnapExchange { return snapExchange{sn} }
 func DecodeBlock(raw []byte) (*coreblock.Block, error) { return coreblock.GetFromBytes(raw) }
 
 func CidOfBlock(raw []byte) (cid.Cid, error) {
-	l := coreblock.GetLinkPrototype().BuildLink(raw)
-	cl, ok := l.(cidlink.Link)
-	if !ok {
-		return cid.Undef, fmt.Errorf("not a cid link")
-	}
-	return cl.Cid, nil
+	return coreblock.GetLinkPrototype().Prefix.Sum(raw)
 }
